@@ -24,6 +24,14 @@ def make_env(ncols=8):
         return sp.Symbol("a%d_%s" % (int(col.fields["i"]), str(int(rot)).replace("-", "m")))
     env.methods[("Meta", "query_advice")] = query_advice
 
+    def query_fixed(en, r, a):
+        col, rot = a
+        if not (isinstance(col, Struct) and col.ty == "FixedCol"):
+            raise Unsupported("query_fixed on a non-fixed column")
+        return sp.Symbol("f%d_%s" % (int(col.fields["i"]), str(int(rot)).replace("-", "m")))
+    env.methods[("Meta", "query_fixed")] = query_fixed
+    env.calls[("Expression", "Constant")] = lambda en, a: a[0]
+
     def ip(base):
         def f(en, a):
             es, ts = a
@@ -40,7 +48,8 @@ def make_env(ncols=8):
 def gate_inputs(selector, ncols=8):
     def f():
         cols = Tuple([Struct("Col", {"i": sp.Integer(i)}) for i in range(ncols)])
-        return {"advice_cols": cols, "meta": Struct("Meta", {}), selector: Struct("Selector", {"name": selector})}
+        fixed = Tuple([Struct("FixedCol", {"i": sp.Integer(i)}) for i in range(8)])
+        return {"advice_cols": cols, "fixed_cols": fixed, "meta": Struct("Meta", {}), selector: Struct("Selector", {"name": selector})}
     return f
 
 
